@@ -157,10 +157,15 @@ def noFold (col : Nat) (s : List Char) : Bool :=
   decide (col + (textOf false s).length ≤ Gen.DumpCfg.yamlBestWidth) ||
   (!(s.any isSpaceA) && !(decide (styleOf false s = .double)))
 
-/-- the text the emitter writes for a str VALUE starting at column `col`; `none` = outside the model:
-the string has a line break, or the emitter may fold the text (see `noFold`) -/
+/-- the text the emitter writes for a str VALUE starting at column `col`; `none` = outside the model: the emitter may
+fold the text (see `noFold`), or the string has a line break and is written single-quoted over several lines.
+A string with a line break that `choose_scalar_style` sends to the DOUBLE-quoted style (a blank next to a break —
+indented text —, a TAB or another special character) is written on one line with `\n` / `\N` / `\L` / `\P` escapes and is
+inside the model when it fits into `best_width` -/
 def emitScalar (col : Nat) (s : List Char) : Option (List Char) :=
-  if isMultiline s then none
+  if isMultiline s then
+    (if decide (styleOf false s = .double) && decide (col + (textOf false s).length ≤ Gen.DumpCfg.yamlBestWidth)
+      then some (textOf false s) else none)
   else if noFold col s then some (textOf false s) else none
 
 /-- length of the prepared tag handle that `check_simple_key` adds to the length of the scalar (`!!str`, `!!int` 5,
